@@ -139,6 +139,8 @@ def obligations(tier, seed):
     add([('br', [('op', 'OP_1')])]); add([('br', [('hex0x', 1)])]); add([('br', [('hex0x', 2), ('op', 'OP_ADD')])]); add([('br', [('dec', 2, 0), ('op', 'OP_EQUAL')])])
     add([('br', [('br', [('hex0x', 1)])])]); add([('br', [('br', [('br', [('dec', 1, 0)])]), ('op', 'OP_DROP')])]); add([('br', [('hex', 20)]), ('op', 'OP_EQUAL')])
     add([('br', [('hex', 1)]), ('br', [('dec', 1, 1)])])
+    # empty sub-scripts (a push of the empty script = OP_0), alone, nested and between other tokens (seed C07-4)
+    add([('br', [])]); add([('br', [('br', [])])]); add([('br', [('op', 'OP_1'), ('br', []), ('op', 'OP_2')])]); add([('br', []), ('op', 'OP_DROP')]); add([('br', [('br', [('br', [])])])])
     # long literals and long sub-scripts through the whole pipeline: every push form (direct 75, PUSHDATA1 76..255, PUSHDATA2 256..)
     for n in (75, 76, 255, 256, 520, 521): add([('hexL', n)]); add([('br', [('hexL', n), ('op', 'OP_DROP')])])
     add([('br', [('br', [('hexL', 74)])])]); add([('br', [('br', [('hexL', 253)]), ('op', 'OP_SIZE')])])
